@@ -9,6 +9,13 @@
  * a normal return, a sanitizer report or a crash is a violation.  Afterwards
  * the original (or, for a relocation, a properly re-initialised object) is
  * exercised and everything is released; no library block may stay live.
+ *
+ * Pair cells: a struct of two/three smart-pointer members duplicated as a whole (struct assignment / memcpy) to
+ * storage at several distances, so that BOTH operands of a two-operand call are strays relocated by the SAME byte
+ * distance; two proper objects exchanged by hand (t=a; a=b; b=t) and handed to the library; one stray in both
+ * operand positions.  Side effects: between every probed call and its abort no clear callback of the strayed
+ * pointer may run and the library may free/realloc nothing but the previous contents of a PROPER destination
+ * operand (share/lock/from/slice document that the destination is reset first).
  */
 #include "vrt.h"
 #include "cstl/memory.h"
@@ -23,8 +30,8 @@ static const char *wname[] = { "struct-assignment", "memcpy", "relocated" };
 
 /* per kind: states and probes */
 static const char *gstate[] = { "empty", "owning" };
-static const char *ustate[] = { "empty", "owning" };
-static const char *sstate[] = { "empty", "owning", "shared-with-another" };
+static const char *ustate[] = { "empty", "owning", "owning-no-clear-callback" };   /* "owning": clear callback AND priv */
+static const char *sstate[] = { "empty", "owning", "shared-with-another", "owning-no-clear-callback" };
 static const char *wstate[] = { "empty", "live", "weak-only" };
 static const char *astate[] = { "empty", "whole", "slice", "external" };
 
@@ -49,23 +56,67 @@ static const char *aprobe[] = { "alloc", "set", "release", "data", "data_const",
 
 enum { PR_ZERO, PR_GARBAGE, PR_ONES, PR_LIVE_OBJECT_BYTES, NPRIOR };
 static const char *prior[] = { "zeros", "garbage", "all-ones", "bytes-of-a-live-object" };
-struct cell { int kind, state, way, probe; };
+/* pair cells (both operands strays of one duplicated struct / hand-exchanged objects / one stray twice) */
+enum { GP_SWAP_PAIR, GP_COPY_PAIR, GP_SWAP_SELF, GP_COPY_SELF, GP_SWAP_HAND, NGP };
+static const char *gpprobe[] = { "swap.both-strays-of-one-copy", "copy.both-strays-of-one-copy", "swap.same-stray-twice",
+                                 "copy.same-stray-twice", "swap.hand-exchanged-objects" };
+enum { UP_SWAP_PAIR, UP_SWAP_PAIR_REV, UP_SWAP_SELF, UP_SWAP_HAND, NUP };
+static const char *upprobe[] = { "swap.both-strays-of-one-copy", "swap.both-strays-of-one-copy.reversed", "swap.same-stray-twice",
+                                 "swap.hand-exchanged-objects" };
+enum { SP_SWAP_PAIR, SP_SWAP_SELF, SP_SWAP_HAND, SP_SHARE_PAIR, SP_SHARE_SELF, SP_FROM_PAIR, SP_LOCK_PAIR, NSP };
+static const char *spprobe[] = { "swap.both-strays-of-one-copy", "swap.same-stray-twice", "swap.hand-exchanged-objects",
+                                 "share.both-strays-of-one-copy", "share.same-stray-twice", "weak_from.both-strays-of-one-copy",
+                                 "weak_lock.both-strays-of-one-copy" };
+enum { WPP_SWAP_PAIR, WPP_SWAP_SELF, WPP_SWAP_HAND, WPP_FROM_PAIR, WPP_LOCK_PAIR, NWPP };
+static const char *wpprobe[] = { "swap.both-strays-of-one-copy", "swap.same-stray-twice", "swap.hand-exchanged-objects",
+                                 "from.both-strays-of-one-copy", "lock.both-strays-of-one-copy" };
+enum { AP_SLICE_PAIR, AP_UNSLICE_PAIR, AP_UNSLICE_PAIR_REV, AP_SLICE_HAND, NAP };
+static const char *approbe[] = { "slice.both-strays-of-one-copy", "unslice.both-strays-of-one-copy",
+                                 "unslice.both-strays-of-one-copy.reversed", "slice.hand-exchanged-objects" };
+/* where the duplicate (or the second hand-exchanged object) lives relative to the original */
+enum { PL_ADJ_AFTER, PL_ADJ_BEFORE, PL_4K_ALIGNED, PL_4K_STRADDLE, PL_4K_DOWN, PL_256, PL_ODD, PL_OWN_BLOCK, NPL };
+static const char *plname[] = { "adjacent-after", "adjacent-before-unaligned", "4KiB-up-from-8KiB-aligned", "4KiB-up-straddling-a-4KiB-boundary",
+                                "4KiB-down", "256B-up-aligned", "odd-distance-4136B", "separate-allocation" };
+
+struct cell { int kind, state, way, probe, pl /* -1: classic cell */; };
 static struct cell cells[4096];
 static int ncell;
 
 static void build_cells(void)
 {
-    int s, w, p;
+    int s, w, p, q;
     ncell = 0;
 #define ADD(K, NSTATE, NPROBE) for (s = 0; s < NSTATE; s++) for (w = 0; w < NWAY; w++) for (p = 0; p < NPROBE; p++) { \
-        cells[ncell].kind = K; cells[ncell].state = s; cells[ncell].way = w; cells[ncell].probe = p; ncell++; }
-    ADD(KG, 2, NG) ADD(KU, 2, NU_) ADD(KS, 3, NS_) ADD(KW, 3, NW_) ADD(KA, 4, NA_)
+        cells[ncell].kind = K; cells[ncell].state = s; cells[ncell].way = w; cells[ncell].probe = p; cells[ncell].pl = -1; ncell++; }
+    ADD(KG, 2, NG) ADD(KU, 3, NU_) ADD(KS, 4, NS_) ADD(KW, 3, NW_) ADD(KA, 4, NA_)
     /* converse cells: state = what the storage held before (NPRIOR), way = variant, probe = object kind */
     ADD(KC, NPRIOR, 5)
 #undef ADD
+    /* pair cells: way = struct assignment / memcpy only (the original must stay usable) */
+#define ADDP(K, STATE0, NSTATE, NPROBE) for (s = STATE0; s < NSTATE; s++) for (w = 0; w < 2; w++) for (q = 0; q < NPL; q++) for (p = 0; p < NPROBE; p++) { \
+        cells[ncell].kind = K; cells[ncell].state = s; cells[ncell].way = w; cells[ncell].probe = p; cells[ncell].pl = q; ncell++; }
+    ADDP(KG, 0, 2, NGP) ADDP(KU, 0, 3, NUP) ADDP(KS, 0, 4, NSP) ADDP(KW, 0, 3, NWPP) ADDP(KA, 1, 4, NAP)
+#undef ADDP
 }
 
-static void clr_cb(void *mem, void *priv) { (void)priv; memset(mem, 0xa5, 8); VRT_COUNT("clear-callbacks"); }
+/* clr_cb is the clear callback of every pointer that gets a stray copy (and of the converse cells); a proper
+ * DESTINATION operand that owns something of its own uses clr_proper, so that the two can be told apart. */
+static uint64_t cb_calls, cb_mark;
+static void clr_cb(void *mem, void *priv)
+{
+    cb_calls++;
+    if (priv != NULL) ++*(uint64_t *)priv;
+    if (mem != NULL) memset(mem, 0xa5, 8);
+    VRT_COUNT("clear-callbacks");
+}
+static void clr_proper(void *mem, void *priv) { (void)priv; if (mem != NULL) memset(mem, 0xa5, 8); VRT_COUNT("clear-callbacks.proper-destination"); }
+/* blocks that a probed call may legitimately release before it aborts: the previous contents of a proper
+ * destination operand, which share/lock/from/slice are documented to reset first */
+static void *tol[4];
+static int ntol;
+static void tolerate(void *p) { if (p != NULL && ntol < 4) tol[ntol++] = p; }
+/* open the observation window directly in front of the probed call */
+static void watch(void) { cb_mark = cb_calls; vrt_ev_begin(); }
 
 /* make the stray copy of an object of size n living at *orig.  Returns the stray object's address.
  * W_RELOCATE: the bytes are moved to new storage and the old storage is released (so *orig becomes NULL). */
@@ -95,9 +146,29 @@ static void *stray(void **orig, size_t n, int way)
 static void must_abort(int aborted, const struct cell *c, const char *st, const char *pr)
 {
     char key[160];
-    if (aborted) { VRT_COUNT("cells.aborted-as-required"); return; }
-    snprintf(key, sizeof(key), "guard.stray-copy-not-caught.%s.%s.%s", kname[c->kind], pr, st);
-    vrt_fail(key, "%s %s (%s) through a %s copy returned normally instead of aborting", kname[c->kind], pr, st, wname[c->way]);
+    int i, n, j, nfree = 0;
+    if (!aborted) {
+        snprintf(key, sizeof(key), "guard.stray-copy-not-caught.%s.%s.%s", kname[c->kind], pr, st);
+        vrt_fail(key, "%s %s (%s) through a %s copy%s%s returned normally instead of aborting", kname[c->kind], pr, st, wname[c->way],
+                 c->pl >= 0 ? " placed " : "", c->pl >= 0 ? plname[c->pl] : "");
+    }
+    /* nothing may have happened between the call and the abort */
+    n = vrt_ev_n(); if (n > VRT_EV_MAX) n = VRT_EV_MAX;
+    for (i = 0; i < n; i++) {
+        const struct vrt_aev *e = vrt_ev(i);
+        if ((e->kind != 'f' && e->kind != 'r') || e->p == NULL) continue;
+        for (j = 0; j < ntol && tol[j] != e->p; j++) ;
+        if (j < ntol) VRT_COUNT("side-effects.tolerated-release-of-a-proper-destination"); else nfree++;
+    }
+    if (nfree != 0 || cb_calls != cb_mark) {
+        snprintf(key, sizeof(key), "guard.stray-copy-side-effect-before-abort.%s.%s.%s", kname[c->kind], pr, st);
+        vrt_fail(key, "%s %s (%s) through a %s copy aborted, but only after %d clear callback(s) on the strayed pointer's memory and "
+                 "%d free/realloc of blocks that are not the proper destination's", kname[c->kind], pr, st, wname[c->way],
+                 (int)(cb_calls - cb_mark), nfree);
+    }
+    ntol = 0;
+    VRT_COUNT("cells.aborted-as-required");
+    VRT_COUNT("side-effects.aborting-calls-observed-clean");
 }
 
 /* ---------------- converse: proper use never aborts ---------------- */
@@ -285,6 +356,7 @@ static void cell_guarded(const struct cell *c)
     x = stray(&ov, sizeof(*o), c->way); o = ov;
     vrt_state(gstate[c->state]);
     VRT_OP2("guarded_ptr.probe", "probe %ld way %ld", c->probe, c->way);
+    watch();
     switch (c->probe) {
     case G_GET: ab = VRT_ABORTS((void)cstl_guarded_ptr_get(x)); break;
     case G_GET_CONST: ab = VRT_ABORTS((void)cstl_guarded_ptr_get_const(x)); break;
@@ -307,12 +379,16 @@ static void cell_unique(const struct cell *c)
 {
     cstl_unique_ptr_t *o = vrt_alloc(sizeof(*o)), *x, *other = vrt_alloc(sizeof(*other));
     void *ov = o, *mem = NULL;
+    uint64_t *pv = vrt_zalloc(sizeof(*pv));      /* priv of the clear callback: counts its calls */
     int ab;
     cstl_unique_ptr_init(o); cstl_unique_ptr_init(other);
-    if (c->state == 1) { cstl_unique_ptr_alloc(o, 32, clr_cb, NULL); mem = cstl_unique_ptr_get(o); }
+    if (c->state == 1) { cstl_unique_ptr_alloc(o, 32, clr_cb, pv); VRT_COUNT("side-effects.strays-with-clear-callback-and-priv"); }
+    if (c->state == 2) { cstl_unique_ptr_alloc(o, 32, NULL, NULL); VRT_COUNT("side-effects.strays-without-clear-callback"); }
+    mem = cstl_unique_ptr_get(o);
     x = stray(&ov, sizeof(*o), c->way); o = ov;
     vrt_state(ustate[c->state]);
     VRT_OP2("unique_ptr.probe", "probe %ld way %ld", c->probe, c->way);
+    watch();
     switch (c->probe) {
     case U_GET: ab = VRT_ABORTS((void)cstl_unique_ptr_get(x)); break;
     case U_GET_CONST: ab = VRT_ABORTS((void)cstl_unique_ptr_get_const(x)); break;
@@ -328,6 +404,8 @@ static void cell_unique(const struct cell *c)
     if (o != NULL) {
         VRT_CHECK(cstl_unique_ptr_get(o) == mem, "guard.original-broken.unique", "original unique pointer changed");
         cstl_unique_ptr_reset(o);
+        VRT_CHECK(*pv == (c->state == 1 ? 1u : 0u), "guard.original-broken.unique.clear-callback",
+                  "resetting the original after the probe ran its clear callback %lu times with its priv", (unsigned long)*pv);
         VRT_COUNT("originals-exercised");
     } else if (mem != NULL) {
         /* relocated: nobody can legitimately reach the block any more; release it from the harness */
@@ -335,7 +413,7 @@ static void cell_unique(const struct cell *c)
     }
     cstl_unique_ptr_reset(other);
     VRT_CHECK(vrt_lib_live() == 0, "guard.leak-or-early-free.unique", "%zu library blocks live after releasing the originals", vrt_lib_live());
-    vrt_free(x); vrt_free(other); if (o) vrt_free(o);
+    vrt_free(x); vrt_free(other); vrt_free(pv); if (o) vrt_free(o);
 }
 
 /* ---------------- shared / weak ---------------- */
@@ -352,17 +430,23 @@ static void cell_shared(const struct cell *c)
     void *ov = o, *mem = NULL;
     int ab;
     cstl_shared_ptr_init(o); cstl_shared_ptr_init(other); cstl_shared_ptr_init(co); cstl_weak_ptr_init(wk);
-    if (c->state >= 1) { cstl_shared_ptr_alloc(o, 32, clr_cb); mem = cstl_shared_ptr_get(o); }
+    if (c->state >= 1) {
+        cstl_shared_ptr_alloc(o, 32, c->state == 3 ? NULL : clr_cb); mem = cstl_shared_ptr_get(o);
+        if (c->state == 3) VRT_COUNT("side-effects.strays-without-clear-callback"); else VRT_COUNT("side-effects.strays-with-clear-callback");
+    }
     if (c->state == 2) cstl_shared_ptr_share(o, co);
     /* "other" owns something of its own so that a wrongly executed transfer is visible */
-    cstl_shared_ptr_alloc(other, 16, clr_cb);
+    cstl_shared_ptr_alloc(other, 16, clr_proper);
     if (c->probe == S_LOCK_SP && c->state >= 1) cstl_weak_ptr_from(wk, other);
     if (c->probe == S_LOCK_SP_SAME_BLOCK) cstl_weak_ptr_from(wk, o);
     if (c->probe == S_SHARE_DST_EMPTY_SRC) cstl_shared_ptr_reset(other);
-    if (c->probe == S_SHARE_DST_COPY_OF_COOWNER && c->state == 1) cstl_shared_ptr_share(o, co);
+    if (c->probe == S_SHARE_DST_COPY_OF_COOWNER && (c->state == 1 || c->state == 3)) cstl_shared_ptr_share(o, co);
+    /* share(x, other) may release what the proper destination held before it looks at the source */
+    if (c->probe == S_SHARE_SRC) { tolerate(cstl_shared_ptr_get(other)); tolerate(other->data.ptr); }
     x = stray(&ov, sizeof(*o), c->way); o = ov;
     vrt_state(sstate[c->state]);
     VRT_OP2("shared_ptr.probe", "probe %ld way %ld", c->probe, c->way);
+    watch();
     switch (c->probe) {
     case S_GET: ab = VRT_ABORTS((void)cstl_shared_ptr_get(x)); break;
     case S_GET_CONST: ab = VRT_ABORTS((void)cstl_shared_ptr_get_const(x)); break;
@@ -389,7 +473,7 @@ static void cell_shared(const struct cell *c)
     VRT_OP0("shared_ptr.reset", "original / proper objects after the stray probe");
     if (o != NULL) {
         VRT_CHECK(cstl_shared_ptr_get(o) == mem, "guard.original-broken.shared", "original shared pointer no longer yields its memory");
-        if (mem != NULL) VRT_CHECK(*(unsigned char *)mem != 0xa5, "guard.original-memory-cleared.shared", "the original's memory was cleared through the stray copy");
+        if (mem != NULL) VRT_CHECK(*(unsigned char *)mem != 0xa5 || c->state == 3, "guard.original-memory-cleared.shared", "the original's memory was cleared through the stray copy");
         cstl_shared_ptr_reset(o);
         VRT_COUNT("originals-exercised");
     }
@@ -411,6 +495,7 @@ static void cell_weak(const struct cell *c)
     x = stray(&ov, sizeof(*o), c->way); o = ov;
     vrt_state(wstate[c->state]);
     VRT_OP2("weak_ptr.probe", "probe %ld way %ld", c->probe, c->way);
+    watch();
     switch (c->probe) {
     case WP_FROM_WP: case WP_FROM_WP_SAME_BLOCK: ab = VRT_ABORTS(cstl_weak_ptr_from(x, owner)); break;
     case WP_LOCK_WP: ab = VRT_ABORTS(cstl_weak_ptr_lock(x, tgt)); break;
@@ -449,6 +534,7 @@ static void cell_array(const struct cell *c)
     x = stray(&ov, sizeof(*o), c->way); o = ov;
     vrt_state(astate[c->state]);
     VRT_OP2("array.probe", "probe %ld way %ld", c->probe, c->way);
+    watch();
     switch (c->probe) {
     case A_ALLOC: ab = VRT_ABORTS(cstl_array_alloc(x, 2, 8)); break;
     case A_SET: ab = VRT_ABORTS(cstl_array_set(x, ext, 4, 8)); break;
@@ -500,36 +586,328 @@ static void cell_array(const struct cell *c)
     vrt_free(x); vrt_free(base); vrt_free(other); if (o) vrt_free(o);
 }
 
+/* ---------------- pair cells: both operands strays with the same displacement ---------------- */
+struct spot { unsigned char *arena, *sep; void *orig, *copy; };
+#define ARENA (3 * 8192)
+/* storage for an n-byte original and its duplicate at the distance the placement asks for.  Everything lives in
+ * one garbage-filled arena whose middle is aligned to 8 KiB, so that "the same distance" is also "the same
+ * address bits flipped" for some placements and not for others. */
+static void place(struct spot *s, size_t n, int pl)
+{
+    uintptr_t mid;
+    s->arena = vrt_alloc(ARENA); s->sep = NULL;
+    memset(s->arena, 0x5a, ARENA);
+    mid = ((uintptr_t)s->arena + 4096 + 8191) & ~(uintptr_t)8191;
+    switch (pl) {
+    case PL_ADJ_AFTER: s->orig = (void *)mid; s->copy = (void *)(mid + n); break;
+    case PL_ADJ_BEFORE: s->orig = (void *)(mid + 8); s->copy = (void *)(mid + 8 - n); break;
+    case PL_4K_ALIGNED: s->orig = (void *)mid; s->copy = (void *)(mid + 4096); break;
+    case PL_4K_STRADDLE: s->orig = (void *)(mid + 4096 - 16); s->copy = (void *)(mid + 8192 - 16); break;
+    case PL_4K_DOWN: s->orig = (void *)(mid + 4096); s->copy = (void *)mid; break;
+    case PL_256: s->orig = (void *)mid; s->copy = (void *)(mid + 256); break;
+    case PL_ODD: s->orig = (void *)(mid + 24); s->copy = (void *)(mid + 24 + 4136); break;
+    default: s->orig = (void *)mid; s->sep = vrt_alloc(n); memset(s->sep, 0x5a, n); s->copy = s->sep; break;
+    }
+    vrt_count_dyn(pl == PL_ADJ_AFTER || pl == PL_ADJ_BEFORE ? "pair.placement.adjacent" : pl == PL_OWN_BLOCK ? "pair.placement.separate-allocation"
+                  : pl == PL_4K_ALIGNED || pl == PL_256 ? "pair.placement.power-of-two-aligned" : "pair.placement.4KiB-or-odd-unaligned", 1);
+}
+static void unplace(struct spot *s) { if (s->sep) vrt_free(s->sep); vrt_free(s->arena); }
+/* duplicate the whole struct the way a careless client would */
+#define DUP(T, X, O, way) do { if ((way) == 0) *(T *)(X) = *(const T *)(O); else memcpy((X), (O), sizeof(T)); \
+        VRT_COUNT("pair.structs-duplicated-as-a-whole"); } while (0)
+/* t = a; a = b; b = t */
+#define HAND_EXCHANGE(T, A, B, way) do { T t_; if ((way) == 0) { t_ = *(A); *(A) = *(B); *(B) = t_; } \
+        else { memcpy(&t_, (A), sizeof(T)); memcpy((A), (B), sizeof(T)); memcpy((B), &t_, sizeof(T)); } } while (0)
+static void orig_fail(const struct cell *c, const char *what)
+{
+    char key[160];
+    snprintf(key, sizeof(key), "guard.original-broken.%s.%s", kname[c->kind], what);
+    vrt_fail(key, "after the stray probe the original %s objects do not work: %s", kname[c->kind], what);
+}
+/* an abort in here is not armed: the runtime reports it as abort.unexpected.original.<what>.<state> */
+#define ORIG_OK(stmt, what) do { VRT_OP0("original." what, "proper call on the originals after the stray probe"); stmt; } while (0)
+#define ORIG_IS(cond, what) do { if (!(cond)) orig_fail(c, what); } while (0)
+
+/* Compile-time budget: the pair cells are glue around ~25 probed calls; built without optimisation and without
+ * UBSan on the GLUE only.  The library's header inlines are then not inlined into these functions but emitted
+ * out of line in this TU with the full flags (ASan+UBSan), the classic cells above keep the inlined variants. */
+#ifdef __clang__
+#define PAIR_FN __attribute__((noinline, optnone, no_sanitize("undefined"))) static void
+#else
+#define PAIR_FN __attribute__((noinline, optimize("O0"), no_sanitize("undefined"))) static void
+#endif
+
+struct gtrio { struct cstl_guarded_ptr a, b, c; };
+PAIR_FN pair_guarded(const struct cell *c)
+{
+    struct spot sp; struct gtrio *o, *x;
+    struct cstl_guarded_ptr *A, *B;
+    void *blk[4]; void *volatile g0 = NULL, *volatile g1 = NULL;
+    const int own = c->state == 1, hand = c->probe == GP_SWAP_HAND;
+    int i, ab;
+    place(&sp, sizeof(*o), c->pl); o = sp.orig; x = sp.copy;
+    for (i = 0; i < 4; i++) blk[i] = vrt_alloc(16);
+    cstl_guarded_ptr_set(&o->a, own ? blk[0] : NULL); cstl_guarded_ptr_set(&o->b, own ? blk[1] : NULL); cstl_guarded_ptr_set(&o->c, own ? blk[2] : NULL);
+    A = &o->a; B = &x->c;
+    if (hand) { cstl_guarded_ptr_set(B, own ? blk[3] : NULL); HAND_EXCHANGE(struct cstl_guarded_ptr, A, B, c->way); }
+    else DUP(struct gtrio, x, o, c->way);
+    vrt_state(gstate[c->state]);
+    VRT_OP2("guarded_ptr.pair-probe", "probe %ld placement %ld", c->probe, c->pl);
+    watch();
+    switch (c->probe) {
+    case GP_SWAP_PAIR: ab = VRT_ABORTS(cstl_guarded_ptr_swap(&x->a, &x->b)); break;
+    case GP_COPY_PAIR: ab = VRT_ABORTS(cstl_guarded_ptr_copy(&x->c, &x->b)); break;
+    case GP_SWAP_SELF: ab = VRT_ABORTS(cstl_guarded_ptr_swap(&x->b, &x->b)); break;
+    case GP_COPY_SELF: ab = VRT_ABORTS(cstl_guarded_ptr_copy(&x->a, &x->a)); break;
+    default: ab = VRT_ABORTS(cstl_guarded_ptr_swap(A, B)); break;
+    }
+    must_abort(ab, c, gstate[c->state], gpprobe[c->probe]);
+    if (hand) { HAND_EXCHANGE(struct cstl_guarded_ptr, A, B, c->way); VRT_COUNT("pair.hand-exchanged-objects-put-back"); }
+    else B = &o->c;
+    ORIG_OK(g0 = cstl_guarded_ptr_get(A), "get"); ORIG_OK(g1 = cstl_guarded_ptr_get(B), "get");
+    ORIG_IS(g0 == (own ? blk[0] : NULL) && g1 == (own ? blk[hand ? 3 : 2] : NULL) && cstl_guarded_ptr_get(&o->b) == (own ? blk[1] : NULL), "pointer-changed");
+    ORIG_OK(cstl_guarded_ptr_swap(A, B), "swap");
+    ORIG_IS(cstl_guarded_ptr_get(B) == g0 && cstl_guarded_ptr_get(A) == g1, "swap-wrong");
+    VRT_COUNT("originals-exercised"); VRT_COUNT("pair.originals-exercised");
+    for (i = 0; i < 4; i++) vrt_free(blk[i]);
+    unplace(&sp);
+}
+
+struct utrio { cstl_unique_ptr_t a, b, c; };
+PAIR_FN pair_unique(const struct cell *c)
+{
+    struct spot sp; struct utrio *o, *x;
+    cstl_unique_ptr_t *A, *B;
+    uint64_t *pv = vrt_zalloc(4 * sizeof(*pv));
+    void *mem[4]; void *volatile g0 = NULL, *volatile g1 = NULL;
+    const int own = c->state >= 1, cb = c->state == 1, hand = c->probe == UP_SWAP_HAND;
+    int i, ab;
+    place(&sp, sizeof(*o), c->pl); o = sp.orig; x = sp.copy;
+    A = &o->a; B = &x->c;
+    cstl_unique_ptr_init(&o->a); cstl_unique_ptr_init(&o->b); cstl_unique_ptr_init(&o->c);
+    if (hand) cstl_unique_ptr_init(B);
+    if (own) {
+        cstl_unique_ptr_alloc(&o->a, 32, cb ? clr_cb : NULL, cb ? &pv[0] : NULL);
+        cstl_unique_ptr_alloc(&o->b, 24, cb ? clr_cb : NULL, cb ? &pv[1] : NULL);
+        cstl_unique_ptr_alloc(&o->c, 40, cb ? clr_cb : NULL, cb ? &pv[2] : NULL);
+        if (hand) cstl_unique_ptr_alloc(B, 16, cb ? clr_cb : NULL, cb ? &pv[3] : NULL);
+        if (cb) VRT_COUNT("side-effects.strays-with-clear-callback-and-priv"); else VRT_COUNT("side-effects.strays-without-clear-callback");
+    }
+    mem[0] = cstl_unique_ptr_get(&o->a); mem[1] = cstl_unique_ptr_get(&o->b); mem[2] = cstl_unique_ptr_get(&o->c);
+    mem[3] = hand ? cstl_unique_ptr_get(B) : NULL;
+    if (hand) HAND_EXCHANGE(cstl_unique_ptr_t, A, B, c->way); else DUP(struct utrio, x, o, c->way);
+    vrt_state(ustate[c->state]);
+    VRT_OP2("unique_ptr.pair-probe", "probe %ld placement %ld", c->probe, c->pl);
+    watch();
+    switch (c->probe) {
+    case UP_SWAP_PAIR: ab = VRT_ABORTS(cstl_unique_ptr_swap(&x->a, &x->b)); break;
+    case UP_SWAP_PAIR_REV: ab = VRT_ABORTS(cstl_unique_ptr_swap(&x->c, &x->a)); break;
+    case UP_SWAP_SELF: ab = VRT_ABORTS(cstl_unique_ptr_swap(&x->b, &x->b)); break;
+    default: ab = VRT_ABORTS(cstl_unique_ptr_swap(A, B)); break;
+    }
+    must_abort(ab, c, ustate[c->state], upprobe[c->probe]);
+    if (hand) { HAND_EXCHANGE(cstl_unique_ptr_t, A, B, c->way); VRT_COUNT("pair.hand-exchanged-objects-put-back"); }
+    else B = &o->c;
+    ORIG_OK(g0 = cstl_unique_ptr_get(A), "get"); ORIG_OK(g1 = cstl_unique_ptr_get(B), "get");
+    ORIG_IS(g0 == mem[0] && g1 == mem[hand ? 3 : 2] && cstl_unique_ptr_get(&o->b) == mem[1], "pointer-changed");
+    ORIG_OK(cstl_unique_ptr_swap(A, B), "swap");
+    ORIG_IS(cstl_unique_ptr_get(B) == g0 && cstl_unique_ptr_get(A) == g1, "swap-wrong");
+    ORIG_OK(cstl_unique_ptr_reset(A), "reset"); ORIG_OK(cstl_unique_ptr_reset(B), "reset");
+    ORIG_OK(cstl_unique_ptr_reset(&o->b), "reset"); ORIG_OK(cstl_unique_ptr_reset(&o->c), "reset");
+    for (i = 0; i < 4; i++) ORIG_IS(pv[i] == ((cb && mem[i] != NULL) ? 1u : 0u), "clear-callback");
+    VRT_CHECK(vrt_lib_live() == 0, "guard.leak-or-early-free.unique", "%zu library blocks live after releasing the originals", vrt_lib_live());
+    VRT_COUNT("originals-exercised"); VRT_COUNT("pair.originals-exercised");
+    vrt_free(pv);
+    unplace(&sp);
+}
+
+struct strio { cstl_shared_ptr_t a, b; cstl_weak_ptr_t w; };
+PAIR_FN pair_shared(const struct cell *c)
+{
+    struct spot sp; struct strio *o, *x;
+    cstl_shared_ptr_t *A, *B;
+    cstl_xtor_func_t *const clr = c->state == 3 ? NULL : clr_cb;
+    void *ma, *mb, *mB; void *volatile g0 = NULL, *volatile g1 = NULL;
+    const int own = c->state >= 1, hand = c->probe == SP_SWAP_HAND;
+    int ab;
+    place(&sp, sizeof(*o), c->pl); o = sp.orig; x = sp.copy;
+    A = &o->a; B = &x->b;
+    cstl_shared_ptr_init(&o->a); cstl_shared_ptr_init(&o->b); cstl_weak_ptr_init(&o->w);
+    if (hand) cstl_shared_ptr_init(B);
+    if (own) {
+        cstl_shared_ptr_alloc(&o->a, 32, clr);
+        if (c->state == 2) cstl_shared_ptr_share(&o->a, &o->b); else cstl_shared_ptr_alloc(&o->b, 24, clr);
+        cstl_weak_ptr_from(&o->w, &o->a);
+        if (hand) { if (c->state == 2) cstl_shared_ptr_share(&o->a, B); else cstl_shared_ptr_alloc(B, 16, clr); }
+        if (clr) VRT_COUNT("side-effects.strays-with-clear-callback"); else VRT_COUNT("side-effects.strays-without-clear-callback");
+    }
+    ma = cstl_shared_ptr_get(&o->a); mb = cstl_shared_ptr_get(&o->b); mB = hand ? cstl_shared_ptr_get(B) : NULL;
+    if (hand) HAND_EXCHANGE(cstl_shared_ptr_t, A, B, c->way); else DUP(struct strio, x, o, c->way);
+    vrt_state(sstate[c->state]);
+    VRT_OP2("shared_ptr.pair-probe", "probe %ld placement %ld", c->probe, c->pl);
+    watch();
+    switch (c->probe) {
+    case SP_SWAP_PAIR: ab = VRT_ABORTS(cstl_shared_ptr_swap(&x->a, &x->b)); break;
+    case SP_SWAP_SELF: ab = VRT_ABORTS(cstl_shared_ptr_swap(&x->a, &x->a)); break;
+    case SP_SHARE_PAIR: ab = VRT_ABORTS(cstl_shared_ptr_share(&x->a, &x->b)); break;
+    case SP_SHARE_SELF: ab = VRT_ABORTS(cstl_shared_ptr_share(&x->b, &x->b)); break;
+    case SP_FROM_PAIR: ab = VRT_ABORTS(cstl_weak_ptr_from(&x->w, &x->b)); break;
+    case SP_LOCK_PAIR: ab = VRT_ABORTS(cstl_weak_ptr_lock(&x->w, &x->b)); break;
+    default: ab = VRT_ABORTS(cstl_shared_ptr_swap(A, B)); break;
+    }
+    must_abort(ab, c, sstate[c->state], spprobe[c->probe]);
+    if (hand) { HAND_EXCHANGE(cstl_shared_ptr_t, A, B, c->way); VRT_COUNT("pair.hand-exchanged-objects-put-back"); }
+    else B = &o->b;
+    ORIG_OK(g0 = cstl_shared_ptr_get(A), "get"); ORIG_OK(g1 = cstl_shared_ptr_get(B), "get");
+    ORIG_IS(g0 == ma && g1 == (hand ? mB : mb) && cstl_shared_ptr_get(&o->b) == mb, "pointer-changed");
+    if (ma != NULL && clr != NULL) ORIG_IS(*(unsigned char *)ma != 0xa5 && *(unsigned char *)mb != 0xa5, "memory-cleared-through-the-stray-copy");
+    ORIG_OK(cstl_shared_ptr_swap(A, B), "swap");
+    ORIG_IS(cstl_shared_ptr_get(B) == g0 && cstl_shared_ptr_get(A) == g1, "swap-wrong");
+    ORIG_OK(cstl_weak_ptr_lock(&o->w, A), "weak_lock");
+    ORIG_IS(cstl_shared_ptr_get(A) == ma, "weak_lock-wrong");
+    ORIG_OK(cstl_shared_ptr_reset(A), "reset"); ORIG_OK(cstl_shared_ptr_reset(B), "reset"); ORIG_OK(cstl_shared_ptr_reset(&o->b), "reset");
+    ORIG_OK(cstl_weak_ptr_reset(&o->w), "weak_reset");
+    VRT_CHECK(vrt_lib_live() == 0, "guard.leak-or-early-free.shared", "%zu library blocks live after releasing the originals", vrt_lib_live());
+    VRT_COUNT("originals-exercised"); VRT_COUNT("pair.originals-exercised");
+    unplace(&sp);
+}
+
+struct wtrio { cstl_weak_ptr_t a, b; cstl_shared_ptr_t s; };
+PAIR_FN pair_weak(const struct cell *c)
+{
+    struct spot sp; struct wtrio *o, *x;
+    cstl_weak_ptr_t *A, *B;
+    cstl_shared_ptr_t *own2 = vrt_alloc(sizeof(*own2)), *tgt = vrt_alloc(sizeof(*tgt));
+    void *m1, *m2;
+    const int hand = c->probe == WPP_SWAP_HAND;
+    int ab;
+    place(&sp, sizeof(*o), c->pl); o = sp.orig; x = sp.copy;
+    A = &o->a; B = &x->b;
+    cstl_weak_ptr_init(&o->a); cstl_weak_ptr_init(&o->b); cstl_shared_ptr_init(&o->s); cstl_shared_ptr_init(own2); cstl_shared_ptr_init(tgt);
+    if (hand) cstl_weak_ptr_init(B);
+    if (c->state >= 1) {
+        cstl_shared_ptr_alloc(&o->s, 32, clr_cb); cstl_shared_ptr_alloc(own2, 24, clr_cb);
+        cstl_weak_ptr_from(&o->a, &o->s); cstl_weak_ptr_from(&o->b, own2);
+        if (hand) cstl_weak_ptr_from(B, own2);
+    }
+    m1 = cstl_shared_ptr_get(&o->s); m2 = cstl_shared_ptr_get(own2);
+    if (c->state == 2) { cstl_shared_ptr_reset(&o->s); cstl_shared_ptr_reset(own2); }
+    if (hand) HAND_EXCHANGE(cstl_weak_ptr_t, A, B, c->way); else DUP(struct wtrio, x, o, c->way);
+    vrt_state(wstate[c->state]);
+    VRT_OP2("weak_ptr.pair-probe", "probe %ld placement %ld", c->probe, c->pl);
+    watch();
+    switch (c->probe) {
+    case WPP_SWAP_PAIR: ab = VRT_ABORTS(cstl_weak_ptr_swap(&x->a, &x->b)); break;
+    case WPP_SWAP_SELF: ab = VRT_ABORTS(cstl_weak_ptr_swap(&x->b, &x->b)); break;
+    case WPP_FROM_PAIR: ab = VRT_ABORTS(cstl_weak_ptr_from(&x->b, &x->s)); break;
+    case WPP_LOCK_PAIR: ab = VRT_ABORTS(cstl_weak_ptr_lock(&x->a, &x->s)); break;
+    default: ab = VRT_ABORTS(cstl_weak_ptr_swap(A, B)); break;
+    }
+    must_abort(ab, c, wstate[c->state], wpprobe[c->probe]);
+    if (hand) { HAND_EXCHANGE(cstl_weak_ptr_t, A, B, c->way); VRT_COUNT("pair.hand-exchanged-objects-put-back"); }
+    else B = &o->b;
+    ORIG_OK(cstl_weak_ptr_lock(A, tgt), "lock");
+    ORIG_IS(cstl_shared_ptr_get(tgt) == (c->state == 1 ? m1 : NULL), "lock-wrong");
+    ORIG_OK(cstl_weak_ptr_swap(A, B), "swap");
+    ORIG_OK(cstl_weak_ptr_lock(A, tgt), "lock");
+    ORIG_IS(cstl_shared_ptr_get(tgt) == (c->state == 1 ? m2 : NULL), "swap-wrong");
+    ORIG_OK(cstl_shared_ptr_reset(tgt), "reset"); ORIG_OK(cstl_shared_ptr_reset(&o->s), "reset"); ORIG_OK(cstl_shared_ptr_reset(own2), "reset");
+    ORIG_OK(cstl_weak_ptr_reset(A), "weak_reset"); ORIG_OK(cstl_weak_ptr_reset(B), "weak_reset"); ORIG_OK(cstl_weak_ptr_reset(&o->b), "weak_reset");
+    VRT_CHECK(vrt_lib_live() == 0, "guard.leak-or-early-free.weak", "%zu library blocks live after releasing the originals", vrt_lib_live());
+    VRT_COUNT("originals-exercised"); VRT_COUNT("pair.originals-exercised");
+    vrt_free(own2); vrt_free(tgt);
+    unplace(&sp);
+}
+
+struct aduo { cstl_array_t a, b; };
+static void pair_array_make(cstl_array_t *a, int state, cstl_array_t *base, void *ext, size_t beg, size_t n)
+{
+    cstl_array_init(a);
+    switch (state) {
+    case 1: cstl_array_alloc(a, n, 8); break;
+    case 2: cstl_array_slice(base, beg, beg + n, a); break;
+    default: cstl_array_set(a, ext, n, 8); break;
+    }
+}
+PAIR_FN pair_array(const struct cell *c)
+{
+    struct spot sp; struct aduo *o, *x;
+    cstl_array_t *A, *B, *base = vrt_alloc(sizeof(*base));
+    void *ext[3];
+    const int hand = c->probe == AP_SLICE_HAND;
+    volatile size_t n0 = 0, n1 = 0;
+    int i, ab;
+    place(&sp, sizeof(*o), c->pl); o = sp.orig; x = sp.copy;
+    for (i = 0; i < 3; i++) ext[i] = vrt_alloc(4 * 8);
+    cstl_array_init(base); cstl_array_alloc(base, 6, 8);
+    A = &o->a; B = &x->b;
+    pair_array_make(&o->a, c->state, base, ext[0], 1, 4); pair_array_make(&o->b, c->state, base, ext[1], 0, 3);
+    if (hand) { pair_array_make(B, c->state, base, ext[2], 2, 2); HAND_EXCHANGE(cstl_array_t, A, B, c->way); }
+    else DUP(struct aduo, x, o, c->way);
+    vrt_state(astate[c->state]);
+    VRT_OP2("array.pair-probe", "probe %ld placement %ld", c->probe, c->pl);
+    watch();
+    switch (c->probe) {
+    case AP_SLICE_PAIR: ab = VRT_ABORTS(cstl_array_slice(&x->a, 0, 1, &x->b)); break;
+    case AP_UNSLICE_PAIR: ab = VRT_ABORTS(cstl_array_unslice(&x->a, &x->b)); break;
+    case AP_UNSLICE_PAIR_REV: ab = VRT_ABORTS(cstl_array_unslice(&x->b, &x->a)); break;
+    default: ab = VRT_ABORTS(cstl_array_slice(A, 0, 1, B)); break;
+    }
+    must_abort(ab, c, astate[c->state], approbe[c->probe]);
+    if (hand) { HAND_EXCHANGE(cstl_array_t, A, B, c->way); VRT_COUNT("pair.hand-exchanged-objects-put-back"); }
+    else B = &o->b;
+    ORIG_OK(n0 = cstl_array_size(A), "size"); ORIG_OK(n1 = cstl_array_size(B), "size");
+    ORIG_IS(n0 == 4 && n1 == (hand ? 2u : 3u) && cstl_array_size(&o->b) == 3, "size-changed");
+    ORIG_OK(*(volatile char *)cstl_array_at(A, 3) = 1, "at"); ORIG_OK(*(volatile char *)cstl_array_at(B, 0) = 1, "at");
+    ORIG_OK(cstl_array_slice(A, 1, 3, B), "slice");
+    ORIG_IS(cstl_array_size(B) == 2 && cstl_array_at(B, 0) == cstl_array_at(A, 1), "slice-wrong");
+    ORIG_OK(cstl_array_reset(A), "reset"); ORIG_OK(cstl_array_reset(B), "reset"); ORIG_OK(cstl_array_reset(&o->b), "reset"); ORIG_OK(cstl_array_reset(base), "reset");
+    VRT_CHECK(vrt_lib_live() == 0, "guard.leak-or-early-free.array", "%zu library blocks live after releasing the originals", vrt_lib_live());
+    VRT_COUNT("originals-exercised"); VRT_COUNT("pair.originals-exercised");
+    for (i = 0; i < 3; i++) vrt_free(ext[i]);
+    vrt_free(base);
+    unplace(&sp);
+}
+
 static void run_case(uint64_t idx)
 {
     const struct cell *c = &cells[idx];
     const char *st, *pr;
     char nm[96];
+    ntol = 0;
+    const int pair = c->pl >= 0;
     switch (c->kind) {
-    case KG: st = gstate[c->state]; pr = gprobe[c->probe]; break;
-    case KU: st = ustate[c->state]; pr = uprobe[c->probe]; break;
-    case KS: st = sstate[c->state]; pr = sprobe[c->probe]; break;
-    case KW: st = wstate[c->state]; pr = wprobe[c->probe]; break;
+    case KG: st = gstate[c->state]; pr = pair ? gpprobe[c->probe] : gprobe[c->probe]; break;
+    case KU: st = ustate[c->state]; pr = pair ? upprobe[c->probe] : uprobe[c->probe]; break;
+    case KS: st = sstate[c->state]; pr = pair ? spprobe[c->probe] : sprobe[c->probe]; break;
+    case KW: st = wstate[c->state]; pr = pair ? wpprobe[c->probe] : wprobe[c->probe]; break;
     case KC: st = prior[c->state]; pr = kname[c->probe]; break;
-    default: st = astate[c->state]; pr = aprobe[c->probe]; break;
+    default: st = astate[c->state]; pr = pair ? approbe[c->probe] : aprobe[c->probe]; break;
     }
     if (c->kind == KC) vrt_case_note("converse cell: proper use of %s objects in storage that held %s, variant %d", pr, st, c->way);
+    else if (pair) vrt_case_note("pair cell: %s objects, state %s, %s, second storage %s, probe %s", kname[c->kind], st, wname[c->way], plname[c->pl], pr);
     else vrt_case_note("cell: %s object, state %s, strayed by %s, probe %s", kname[c->kind], st, wname[c->way], pr);
     switch (c->kind) {
-    case KG: cell_guarded(c); break;
-    case KU: cell_unique(c); break;
-    case KS: cell_shared(c); break;
-    case KW: cell_weak(c); break;
+    case KG: if (pair) pair_guarded(c); else cell_guarded(c); break;
+    case KU: if (pair) pair_unique(c); else cell_unique(c); break;
+    case KS: if (pair) pair_shared(c); else cell_shared(c); break;
+    case KW: if (pair) pair_weak(c); else cell_weak(c); break;
     case KC: cell_converse(c); break;
-    default: cell_array(c); break;
+    default: if (pair) pair_array(c); else cell_array(c); break;
     }
+    if (pair) VRT_COUNT("pair.cells");
     snprintf(nm, sizeof(nm), "cells.%s.%s", kname[c->kind], pr);
     vrt_count_dyn(nm, 1);
     VRT_COUNT("cells");
-    vrt_sig(0, vrt_mix(vrt_mix(c->kind * 100 + c->state, c->way), c->probe));
+    vrt_sig(0, vrt_mix(vrt_mix(vrt_mix(c->kind * 100 + c->state, c->way), c->probe), (uint64_t)(c->pl + 1)));
 }
 static uint64_t ncases(void) { build_cells(); return ncell; }
 static void winit(void) { build_cells(); vrt_sig_name(0, "matrix-cells"); }
-static const char *const required[] = { "cells.aborted-as-required", "originals-exercised", "proper-use.cells", "proper-use.calls-returned-normally", NULL };
+static const char *const required[] = { "cells.aborted-as-required", "originals-exercised", "proper-use.cells", "proper-use.calls-returned-normally",
+                                        "side-effects.aborting-calls-observed-clean", "side-effects.strays-with-clear-callback-and-priv",
+                                        "side-effects.strays-with-clear-callback", "side-effects.strays-without-clear-callback",
+                                        "pair.cells", "pair.structs-duplicated-as-a-whole", "pair.hand-exchanged-objects-put-back", "pair.originals-exercised",
+                                        "pair.placement.adjacent", "pair.placement.power-of-two-aligned", "pair.placement.4KiB-or-odd-unaligned",
+                                        "pair.placement.separate-allocation", NULL };
 static const struct vrt_harness H = { "guard", ncases, run_case, winit, NULL, required, 8 };
 int main(int argc, char **argv) { return vrt_main(argc, argv, &H); }
